@@ -250,6 +250,9 @@ var (
 	malformed  = []string{"", ".", "..", "...", "gate", "gatezooecho", "gate.zoo", "chat.zoo", "gate.zoo.echo.x", "chat.zoo.echo.x", "a.b.c.d.e", "gate..", "chat..", "..echo", ".zoo.echo", "gate.zoo.", "chat..echo", "gate.zoo.echo.", ".gate.zoo.echo"}
 	bindings   = []string{"chat-1", "chat-1", "chat-2", "chat-2", "chat-7", "chat-9", "gate-1", "hall-1", "-"}
 	specialIDs = []uint64{0, 0, 1, 127, 128, 1<<32 - 1, 16383, 16384}
+	// D19 (known finding C02/request-id-truncated): ids that do not fit the 32-bit envelope field
+	bigIDs    = []uint64{1 << 32, 1<<32 + 5, 1<<33 + 1, 1<<64 - 1}
+	bigRoutes = []string{"gate.zoo.echo", "gate.zoo.slow", "chat.zoo.echo", "chat.zoo.slow", "hall.zoo.echo"}
 )
 
 type gen struct {
@@ -282,20 +285,37 @@ func (g *gen) route() string {
 func (g *gen) item(nc int) string {
 	r := g.h.R
 	c := r.Intn(nc)
+	if g.used[c] == nil {
+		g.used[c] = map[uint64]bool{}
+	}
+	// ids are unique per connection and case, also modulo 2^32 (what the envelope carries)
+	free := func(id uint64) bool { return !g.used[c][id] && (id%(1<<32) == 0 || !g.used[c][id%(1<<32)]) }
+	take := func(id uint64) {
+		g.used[c][id] = true
+		if id%(1<<32) != 0 {
+			g.used[c][id%(1<<32)] = true
+		}
+	}
+	if r.Intn(64) == 0 {
+		id := bigIDs[r.Intn(len(bigIDs))]
+		if free(id) {
+			take(id)
+			g.v++
+			g.h.Count("msg.request.id>=2^32")
+			return fmt.Sprintf("%d,%d,%s,v%d", c, id, bigRoutes[r.Intn(len(bigRoutes))], g.v)
+		}
+	}
 	var id uint64
 	if r.Intn(3) == 0 {
 		id = specialIDs[r.Intn(len(specialIDs))]
 	} else {
 		id = uint64(1 + r.Intn(1000000))
 	}
-	for id != 0 && g.used[c][id] {
+	for id != 0 && !free(id) {
 		id = uint64(1 + r.Intn(1000000))
 	}
 	if id != 0 {
-		if g.used[c] == nil {
-			g.used[c] = map[uint64]bool{}
-		}
-		g.used[c][id] = true
+		take(id)
 		g.h.Count("msg.request")
 	} else {
 		g.h.Count("msg.notify")
